@@ -10,6 +10,13 @@
 //   (e) hard error => write() false or write-ready failure => onClosed before the loop blocks; nothing reported as sent is lost
 // modes: plan-exh (every outcome sequence up to length --scale x 3 size classes), plan-err (every sequence up to scale-1 followed by a hard error),
 //        rand (random long plans, 1..3 clients, cross suspend/resume), kernel (no scripted faults: minimal SO_SNDBUF, slow reader)
+//        accept-exh / accept-rand / accept-kernel: the first client is not a Server::pair client but comes out of Server::listen (raw loopback connection made
+//        by the harness) or Server::connect (raw loopback listener owned by the harness), and the Listener::ICallback::onAccepted / Establisher::ICallback::
+//        onConnected callback ITSELF acts on the fresh client before it returns the client's callback object: nothing / write / suspend / suspend+write /
+//        write+suspend / write+write (scripted send outcomes, kernel mode: payload larger than the socket buffer). All monitors above then apply to that
+//        client. accept-exh enumerates origin x action x size class x every outcome sequence up to length --scale.
+//        Loopback TCP delivers asynchronously: wherever the harness itself has put bytes in flight it waits (bounded, real time) until its own poll() sees
+//        them before judging the loop; a readiness verdict is a violation only if the needed event bit is missing from the epoll registration.
 #include "srv_util.hpp"
 #include <nstd/Socket/Server.hpp>
 #include <nstd/Socket/Socket.hpp>
@@ -21,15 +28,17 @@ using su::Slice;
 enum Outcome { O_FULL, O_P1, O_PK, O_PN1, O_AGAIN, O_ERR };
 static const char* const ONAME[] = { "full", "part1", "partk", "partn-1", "eagain", "error" };
 enum OpKind { K_WRITE, K_SUSPEND, K_RESUME, K_READALL, K_READSOME, K_SKIPREAD };
-enum Venue { V_OUT, V_ONREAD, V_ONWRITE };
-static const char* const VNAME[] = { "outside", "onRead", "onWrite" };
+enum Venue { V_OUT, V_ONREAD, V_ONWRITE, V_ONACCEPTED, V_ONCONNECTED };
+static const char* const VNAME[] = { "outside", "onRead", "onWrite", "onAccepted", "onConnected" };
+enum FreshAct { F_NONE, F_WRITE, F_SUSPEND, F_SUSPEND_WRITE, F_WRITE_SUSPEND, F_WRITE_WRITE, NFRESH };
+static const char* const FNAME[] = { "nothing", "write", "suspend", "suspend+write", "write+suspend", "write+write" };
 struct Op { int kind; int tgt; long n; int post; };
 
 struct Cm;
 struct CB : public Server::Client::ICallback { Cm* m; void onRead(); void onWrite(); void onClosed(); };
 
 struct Cm {
-  int id; CB cb; Server::Client* c; int fd, pfd;
+  int id; CB cb; Server::Client* c; int fd, pfd; int origin;   // 0 pair, 1 accepted (listener), 2 connected (establisher)
   su::OutStream out;        // client -> peer
   u64 S;                    // sum of successful send returns (bytes handed to the OS)
   u64 peerGot;              // bytes read and verified at the peer
@@ -179,9 +188,23 @@ static void checkBacklogValue(Cm* m, const char* where) {
   }
 }
 
-static void idleChecks() {
+// A loopback TCP wake-up is still in flight inside the kernel: the fd is ready according to poll(), the needed readiness IS requested from the loop's poll set,
+// yet epoll_wait(0) has just returned nothing. Ask again (short real-time naps); inconclusive if that persists for 10 s, never a violation.
+static int64_t g_strikeT0 = 0; static long g_strikeRound = -1, g_strikes = 0;
+static int inflight(const char* what, int id, int fd, int re, unsigned mask) {
+  if (g_strikeRound != g_rounds) { g_strikeRound = g_rounds; g_strikes = 0; g_strikeT0 = ns::realMonotonicMs(); }
+  ++g_strikes; cnt("idle_repolls");
+  if (g_strikes > 3) su::sleepUs(g_strikes < 50 ? 100 : 2000);
+  if (ns::realMonotonicMs() - g_strikeT0 > 10000)
+    harnessBug("%s %d: poll() reports 0x%x on fd %d, which is registered in the epoll set with mask 0x%x, yet epoll_wait(0) kept returning nothing for 10 s", what, id, re, fd, mask);
+  return 1;
+}
+
+// returns 1 when a loopback TCP wake-up is in flight (the kernel has to be asked again), 0 when every client has been judged
+static int idleChecks() {
   for (size_t i = 0; i < g_cl.n; ++i) {
     Cm* m = g_cl[i]; if (m->removed) continue;
+    const bool tcp = m->origin != 0;
     if (m->pendingOnWrite) fail("Server.Client.onWrite/missing-after-drain", "client %d: the backlog drained but onWrite was not called before the loop blocks", m->id);
     if (m->expectClosed && !m->closedSeen) fail("Server.Client.onClosed/missing-after-failure", "client %d: a send/recv failed but the loop is about to block without having called onClosed", m->id);
     checkBacklogValue(m, "idle");
@@ -189,35 +212,46 @@ static void idleChecks() {
     // (a properly registered fd that poll() and epoll_wait(0) disagree about would be a kernel matter: inconclusive)
     unsigned mask = ns::epollMask(m->fd);
     if (!m->backlogDropped && m->backlog() > 0 && m->S == m->peerGot) {
+      if (tcp && !su::pollNow(m->fd, POLLOUT)) { cnt("tcp_inflight_waits"); if (!su::waitReady(m->fd, POLLOUT)) harnessBug("client %d: the peer has read everything but the TCP socket did not become writable within 10 s", m->id); }
       int re = su::pollNow(m->fd, POLLOUT);
       cnt("independent_poll_checks");
       if (!re) harnessBug("client %d: nothing in flight but the socket is not writable", m->id);
+      if (tcp && mask != 0xffffffffu && (mask & EPOLLOUT)) return inflight("client", m->id, m->fd, re, mask);
       if (mask != 0xffffffffu && (mask & EPOLLOUT)) harnessBug("client %d: fd %d writable and registered with mask 0x%x, yet epoll_wait(0) returned nothing", m->id, m->fd, mask);
       fail(m->suspended ? "Server.Client.write/suspended/backlog-stalled" : "Server.Client.write/backlog-stalled", "client %d: %llu accepted byte(s) are still queued, the socket is writable (nothing in flight, poll() 0x%x), write readiness is not requested (epoll mask %s0x%x) and the loop is about to block",
            m->id, (unsigned long long)m->backlog(), re, mask == 0xffffffffu ? "absent " : "", mask);
     }
     if (!m->suspended && !m->closedSeen) {
+      if (tcp && (m->inSent > m->inRead || m->peerClosed) && !su::pollNow(m->fd, POLLIN | POLLRDHUP | POLLHUP)) {
+        cnt("tcp_inflight_waits"); if (!su::waitReady(m->fd, POLLIN | POLLRDHUP | POLLHUP)) harnessBug("client %d: loopback data / close of the peer never arrived", m->id);
+      }
       int re = su::pollNow(m->fd, POLLIN | POLLRDHUP | POLLHUP);
       cnt("independent_poll_checks");
       if (re) {
+        if (tcp && mask != 0xffffffffu && (mask & EPOLLIN)) return inflight("client", m->id, m->fd, re, mask);
         if (mask != 0xffffffffu && (mask & EPOLLIN)) harnessBug("client %d: fd %d readable (0x%x) and registered with mask 0x%x, yet epoll_wait(0) returned nothing", m->id, m->fd, re, mask);
         fail("Server.Client.onRead/readable-not-dispatched", "client %d is not suspended and poll() reports 0x%x on its socket, but read readiness is not requested (epoll mask %s0x%x) and the loop is about to block", m->id, re, mask == 0xffffffffu ? "absent " : "", mask);
       }
     }
   }
+  return 0;
 }
+
+static int freshPending();
 
 static int hIdle(int epfd, int timeout, long elapsed, long* adv) {
   (void)epfd; (void)timeout; (void)elapsed; (void)adv;
   cnt("idle_points");
   if (g_intrReq) fail("Server.interrupt/no-wakeup", "interrupt() has returned but the loop's poll set reports nothing ready");
-  idleChecks();
+  if (idleChecks()) return ns::IDLE_AGAIN;
+  if (freshPending()) return ns::IDLE_AGAIN;
   {
     // bytes in flight keep a unix socket unwritable: the peer reads (kernel mode: slowly, in random chunks) before the loop may be judged idle
     bool any = false;
     for (size_t i = 0; i < g_cl.n; ++i) {
       Cm* m = g_cl[i];
       if (m->S > m->peerGot && !m->peerEof) {
+        if (m->origin != 0 && m->pfd >= 0 && !su::pollNow(m->pfd, POLLIN | POLLHUP)) { cnt("tcp_inflight_waits"); if (!su::waitReady(m->pfd, POLLIN | POLLHUP)) harnessBug("client %d: bytes handed to the kernel never arrived at the loopback peer", m->id); }
         if (g_kernel) { long chunk = g_rng->chance(1, 4) ? 1 + (long)g_rng->below(300) : 1 + (long)g_rng->below(40000); drainPeer(m, chunk); cnt("slow_reader_chunks"); }
         else drainPeer(m);
         any = true;
@@ -383,6 +417,13 @@ void CB::onClosed() {
   setctx("Server.run");
 }
 
+// loopback TCP: bytes the kernel has taken from the client may still be on their way to the peer (bounded real-time wait, verdicts do not depend on it
+// beyond "inconclusive": what never arrives within 10 s is reported by the callers' completeness checks with the numbers at hand)
+static void settlePeer(Cm* m) {
+  if (m->origin == 0) return;
+  for (int w = 0; w < 40000 && m->peerGot < m->S && !m->peerEof && m->pfd >= 0; ++w) { drainPeer(m); if (m->peerGot < m->S) su::sleepUs(250); }
+}
+
 static void pump() {
   g_intrReq = false; g_inRun = true;
   setctx("Server.run"); hist.add("run()\n");
@@ -392,16 +433,21 @@ static void pump() {
   g_intrReq = false; cnt("pumps");
   for (size_t i = 0; i < g_cl.n; ++i) {
     Cm* m = g_cl[i];
-    if (!g_kernel || m->removed) drainPeer(m);
+    if (!g_kernel || m->removed) { drainPeer(m); settlePeer(m); }
     if (!g_kernel && m->peerGot != m->S) fail("Server.Client/peer-stream/incomplete", "client %d: %llu byte(s) were handed to the OS but the peer has received %llu", m->id, (unsigned long long)m->S, (unsigned long long)m->peerGot);
   }
 }
 
-static Cm* addClient(int id) {
+static Cm* newCm(int id, int origin) {
   Cm* m = new Cm;
-  m->id = id; m->cb.m = m; m->S = m->peerGot = 0; m->inWrite = m->errInThisWrite = m->backlogDropped = m->suspended = m->closedSeen = m->expectClosed = m->removed = m->pendingOnWrite = m->peerClosed = m->peerEof = m->inBatch = false;
+  m->id = id; m->cb.m = m; m->origin = origin; m->c = 0; m->fd = m->pfd = -1; m->S = m->peerGot = 0; m->inWrite = m->errInThisWrite = m->backlogDropped = m->suspended = m->closedSeen = m->expectClosed = m->removed = m->pendingOnWrite = m->peerClosed = m->peerEof = m->inBatch = false;
   m->lastOutcome = -1; m->onWriteCount = m->transitions = m->onReadCount = 0; m->inSent = m->inRead = 0; m->lastRecvRet = 0; m->lastRecvErr = 0;
   m->out.salt = (u32)(id * 2 + 11); m->inSalt = (u32)(id * 2 + 12);
+  return m;
+}
+
+static Cm* addClient(int id) {
+  Cm* m = newCm(id, 0);
   Socket peer;
   setctx("Server.pair");
   m->c = g_srv->pair(m->cb, peer);
@@ -423,10 +469,141 @@ static void beginWorld(int nclients) {
   for (int i = 0; i < nclients; ++i) addClient(i);
 }
 
+// ---------------------------------------------------------------- clients that come out of a listener / an establisher; the accept / connect callback acts on them
+struct LCB : public Server::Listener::ICallback { Server::Client::ICallback* onAccepted(Server::Client& client, uint32 ip, uint16 port); };
+struct ECB : public Server::Establisher::ICallback { Server::Client::ICallback* onConnected(Server::Client& client); void onAbolished(); };
+struct Fresh {
+  bool armed, called; int origin, act; long size[2]; int post[2];
+  Server::Listener* l; Server::Establisher* e; int sfd;   // sfd: the listener's / establisher's socket (observation only)
+  int rawFd; uint16_t rawPort;                            // accepted: the harness' end of the connection, made before run(); connected: local port of the establisher
+  Cm* made;
+};
+static Fresh g_fresh; static LCB g_lcb; static ECB g_ecb;
+static int g_rawListen = -1; static uint16_t g_rawPort = 0;
+
+// the loop is about to block although the connection that must produce the fresh client is (or is about to be) visible on the listener / establisher socket
+static int freshPending() {
+  Fresh& f = g_fresh; if (!f.armed || f.called) return 0;
+  const bool acc = f.origin == 1; short ev = acc ? (short)POLLIN : (short)(POLLOUT | POLLERR | POLLHUP); unsigned need = acc ? (unsigned)EPOLLIN : (unsigned)EPOLLOUT;
+  if (!su::pollNow(f.sfd, ev)) { cnt("tcp_inflight_waits"); if (!su::waitReady(f.sfd, ev)) harnessBug("the loopback connection never showed up on the %s socket", acc ? "listener" : "establisher"); }
+  unsigned mask = ns::epollMask(f.sfd);
+  if (mask == 0xffffffffu || !(mask & need)) {
+    if (acc) fail("Server.Listener.onAccepted/acceptable-not-dispatched", "the listener has a connection to accept but accept readiness is not requested from the poll set (epoll mask %s0x%x) and the loop is about to block", mask == 0xffffffffu ? "absent " : "", mask);
+    fail("Server.Establisher/connect-result-not-dispatched", "the establisher's connect has finished but its result is not requested from the poll set (epoll mask %s0x%x) and the loop is about to block", mask == 0xffffffffu ? "absent " : "", mask);
+  }
+  return inflight(acc ? "listener" : "establisher", 0, f.sfd, su::pollNow(f.sfd, ev), mask);
+}
+
+// the body of onAccepted / onConnected: model the client, run the scripted action on it, hand out its callback object
+static Server::Client::ICallback* freshClient(Server::Client& client, int pfd) {
+  Fresh& f = g_fresh;
+  const char* cbn = f.origin == 1 ? "onAccepted" : "onConnected";
+  if (!g_inRun) { char key[96]; snprintf(key, sizeof key, "Server/%s-outside-run", cbn); fail(key, "%s while run() is not executing", cbn); }
+  for (size_t i = 0; i < g_cl.n; ++i) { Cm* o = g_cl[i]; if (o->pendingOnWrite && !o->removed) fail("Server.Client.onWrite/missing-after-drain", "client %d: the backlog drained but the next callback is %s, not onWrite", o->id, cbn); }
+  f.called = true;
+  int id = (int)g_cl.n;
+  Cm* m = newCm(id, f.origin);
+  m->c = &client; m->pfd = pfd; m->fd = (int)client.getSocket().getFileDescriptor();
+  g_cl.push(m); ns::registerFd(m->fd, id); f.made = m;
+  cnt(f.origin == 1 ? "onAccepted" : "onConnected");
+  hist.addf("  %s -> client%d, the callback does: %s\n", cbn, id, FNAME[f.act]);
+  int saved = g_venue; g_venue = f.origin == 1 ? V_ONACCEPTED : V_ONCONNECTED;
+  Op w0 = { K_WRITE, id, f.size[0], f.post[0] }, w1 = { K_WRITE, id, f.size[1], f.post[1] }, su = { K_SUSPEND, id, 0, 0 };
+  int nw = 0; bool susp = false;
+  switch (f.act) {
+  case F_WRITE: execOp(m, w0); nw = 1; break;
+  case F_SUSPEND: execOp(m, su); susp = true; break;
+  case F_SUSPEND_WRITE: execOp(m, su); execOp(m, w0); nw = 1; susp = true; break;
+  case F_WRITE_SUSPEND: execOp(m, w0); execOp(m, su); nw = 1; susp = true; break;
+  case F_WRITE_WRITE: execOp(m, w0); execOp(m, w1); nw = 2; break;
+  default: break;
+  }
+  g_venue = saved;
+  char nm[64];
+  if (nw) { snprintf(nm, sizeof nm, "writes_in_%s", cbn); cnt(nm, nw); if (m->backlog() > 0) { snprintf(nm, sizeof nm, "writes_in_%s_leaving_backlog", cbn); cnt(nm); } }
+  if (susp) { snprintf(nm, sizeof nm, "suspends_in_%s", cbn); cnt(nm); }
+  if (!nw && !susp) { snprintf(nm, sizeof nm, "nothing_in_%s", cbn); cnt(nm); }
+  snprintf(nm, sizeof nm, "%s/%s/%s", cbn, FNAME[f.act], !nw ? "-" : m->expectClosed ? "hard-error" : m->backlog() > 0 ? "backlog" : "sent-completely"); setItem("fresh_client_acts", nm);
+  g_fp = mix(g_fp, 7000 + (u64)f.act * 16 + (u64)f.origin);
+  return &m->cb;
+}
+
+Server::Client::ICallback* LCB::onAccepted(Server::Client& client, uint32 ip, uint16 port) {
+  Fresh& f = g_fresh;
+  if (!f.armed || f.origin != 1 || f.called) fail("Server.Listener.onAccepted/unexpected", "onAccepted (peer %08x:%u) although no unaccepted connection was made to the listener", (unsigned)ip, (unsigned)port);
+  if (ip != 0x7f000001u || port != f.rawPort) fail("Server.Listener.onAccepted/peer-address", "accepted a connection reported as %08x:%u, the raw peer connected from 127.0.0.1:%u", (unsigned)ip, (unsigned)port, (unsigned)f.rawPort);
+  return freshClient(client, f.rawFd);
+}
+Server::Client::ICallback* ECB::onConnected(Server::Client& client) {
+  Fresh& f = g_fresh;
+  if (!f.armed || f.origin != 2 || f.called) fail("Server.Establisher/second-callback", "onConnected although no connect is pending");
+  int pfd = -1;
+  for (int tries = 0; tries < 64 && pfd < 0; ++tries) {   // the raw end of exactly this connection (stale connections of earlier cases are reset)
+    int fd = accept4(g_rawListen, 0, 0, SOCK_CLOEXEC);
+    if (fd < 0) { if (errno == EINTR) continue; if (!su::waitReady(g_rawListen, POLLIN)) break; continue; }
+    su::lingerReset(fd, true);
+    if (su::peerPort(fd) == f.rawPort) { su::setNonBlock(fd); pfd = fd; } else close(fd);
+  }
+  if (pfd < 0) harnessBug("the raw listener has no connection from port %u", (unsigned)f.rawPort);
+  return freshClient(client, pfd);
+}
+void ECB::onAbolished() { fail("Server.Establisher.onAbolished/open-port", "connect to a listening loopback port was abolished (%s)", strerror(errno)); }
+
+// creates the listener + raw connection (origin 1) or the establisher (origin 2), runs the loop until the callback has acted, returns the model of the fresh client
+static Cm* freshPhase(Rng& r, int origin, int act, long s0, long s1) {
+  Fresh& f = g_fresh; memset(&f, 0, sizeof f);
+  f.origin = origin; f.act = act; f.size[0] = s0; f.size[1] = s1; f.post[0] = r.chance(2, 3) ? 1 : 0; f.post[1] = r.chance(2, 3) ? 1 : 0; f.rawFd = -1;
+  if (origin == 1) {
+    uint16_t lport = 0;
+    for (int attempt = 0; ; ++attempt) {
+      setctx("Server.listen"); f.l = g_srv->listen(Socket::loopbackAddress, 0, g_lcb); setctx("driver");
+      if (f.l) { f.sfd = ((Socket*)(void*)f.l)->s; lport = su::localPort(f.sfd); }
+      if (f.l && (f.rawFd = su::rawConnect(lport, g_kernel ? 1 : 0)) >= 0) break;   // kernel mode: minimal receive window at the peer as well
+      if (f.l) { g_srv->remove(*f.l); f.l = 0; }
+      if (attempt >= 200) harnessBug("cannot set up a loopback listener with a raw connection: %s", strerror(errno));
+      su::sleepUs(2000);
+    }
+    f.rawPort = su::localPort(f.rawFd);
+    hist.addf("listen(127.0.0.1:%u), raw connection from port %u\n", (unsigned)lport, (unsigned)f.rawPort);
+  } else {
+    if (g_rawListen < 0 && (g_rawListen = su::rawListener(&g_rawPort)) < 0) harnessBug("cannot create the raw loopback listener: %s", strerror(errno));
+    setctx("Server.connect"); f.e = g_srv->connect(Socket::loopbackAddress, g_rawPort, g_ecb); setctx("driver");
+    if (!f.e) harnessBug("Server::connect to the raw loopback listener failed: %s", strerror(errno));
+    f.sfd = ((Socket*)(void*)f.e)->s; f.rawPort = su::localPort(f.sfd);
+    hist.addf("connect(127.0.0.1:%u) from port %u\n", (unsigned)g_rawPort, (unsigned)f.rawPort);
+  }
+  f.armed = true;
+  pump();
+  if (!f.called) harnessBug("the loop went idle without the %s callback", origin == 1 ? "onAccepted" : "onConnected");
+  f.armed = false;
+  if (r.chance(1, 2)) {
+    setctx(origin == 1 ? "Server.remove(Listener)" : "Server.remove(Establisher)"); hist.addf("remove(%s)\n", origin == 1 ? "listener" : "establisher");
+    if (origin == 1) g_srv->remove(*f.l); else g_srv->remove(*f.e);
+    setctx("driver"); cnt("fresh_source_removed");
+  }
+  return f.made;
+}
+
+// what follows the accept / connect callback for a client the callback left suspended: the peer talks (nothing may be delivered), a backlog still has to drain,
+// then resume() - the pending inbound bytes must produce onRead
+static void freshFollowUp(Rng& r, Cm* m, int cls) {
+  if (m->removed) return;
+  peerSend(m, 1 + (long)r.below(64));
+  pump();
+  if (m->removed || !m->suspended) return;
+  if (r.chance(1, 2)) { Op w = { K_WRITE, m->id, cls < 0 ? 1 + (long)r.below(70000) : 1 + (long)r.below(cls == 0 ? 7 : cls == 1 ? 4096 : 70000), 1 }; execOp(m, w); cnt("writes_while_suspended_since_callback"); pump(); }
+  if (m->removed) return;
+  long readsBefore = m->onReadCount; u64 pending = m->inSent - m->inRead;
+  Op res = { K_RESUME, m->id, 0, 0 }; execOp(m, res);
+  pump();
+  if (!m->removed && pending > 0 && m->onReadCount == readsBefore) fail("Server.Client.resume/pending-data/no-onRead", "client %d was resumed with %llu inbound byte(s) pending, the loop went idle, but onRead was not delivered", m->id, (unsigned long long)pending);
+  if (pending > 0) cnt("resume_after_callback_suspend_delivered_pending");
+}
+
 static void finalChecks() {
   for (size_t i = 0; i < g_cl.n; ++i) {
     Cm* m = g_cl[i];
-    drainPeer(m);
+    drainPeer(m); settlePeer(m);
     if (m->peerGot != m->S) fail("Server.Client/peer-stream/incomplete", "client %d: %llu byte(s) were handed to the OS but the peer has received %llu", m->id, (unsigned long long)m->S, (unsigned long long)m->peerGot);
     if (!m->backlogDropped && !m->removed && m->S != m->out.accepted) fail("Server.Client/peer-stream/backlog-never-sent", "client %d: accepted %llu byte(s), only %llu handed to the OS after the loop went idle", m->id, (unsigned long long)m->out.accepted, (unsigned long long)m->S);
     if (m->transitions != m->onWriteCount) fail("Server.Client.onWrite/count", "client %d: %ld backlog drain(s) but %ld onWrite call(s)", m->id, m->transitions, m->onWriteCount);
@@ -457,12 +634,14 @@ static void endWorld(Rng& r) {
     if (v == 0) {
       if (m->suspended) harnessBug("client still suspended at the end of the case");
       hist.addf("peer%d closes\n", m->id); cnt("end_peer_close");
+      if (m->origin != 0 && r.chance(1, 8)) { su::lingerReset(m->pfd, false); cnt("end_peer_close_tcp_graceful"); }   // TCP peers mostly reset (SO_LINGER 0)
       close(m->pfd); m->pfd = -1; m->peerClosed = true;
       pump();
       if (!m->removed) fail("Server.Client.onClosed/missing-after-peer-close", "client %d: the peer closed, the loop went idle, but the client was never told", m->id);
     } else if (v == 1) {
       hist.addf("remove(client%d) from outside\n", m->id); cnt("end_remove_outside");
       setctx("Server.remove(Client)/outside"); g_srv->remove(*m->c); m->removed = true; ns::unregisterFd(m->fd); setctx("driver");
+      if (m->origin != 0 && !su::waitReady(m->pfd, POLLIN | POLLHUP | POLLRDHUP | POLLERR)) harnessBug("client %d: the close of the removed TCP client never arrived at the loopback peer", m->id);
       drainPeer(m);
       if (!m->peerEof) fail("Server.remove(Client)/peer-sees-no-eof", "client %d removed but its peer does not see end of stream", m->id);
     } else cnt("end_left_to_destructor");
